@@ -1,5 +1,3 @@
-//go:build wip_c18
-
 package props
 
 import (
@@ -276,18 +274,18 @@ func mbIsChecksumSig(fn *types.Func) bool {
 }
 
 type frameDec struct {
-	id, fc     int64
-	dataLo     int64
-	dataT      int64 // data = packet[dataLo : len-dataT]
-	problems   []string
-	checker    *kit.Func // function that verifies the checksum (may be the decoder itself)
-	checkCall  *ast.CallExpr
-	crcFn      *types.Func
-	crcSpanT   int64
-	crcAt      int64
-	crcOrder   string
-	crcCmp     ast.Expr
-	wordReads  map[types.Object][2]interface{} // local var -> (offset, order)
+	id, fc    int64
+	dataLo    int64
+	dataT     int64 // data = packet[dataLo : len-dataT]
+	problems  []string
+	checker   *kit.Func // function that verifies the checksum (may be the decoder itself)
+	checkCall *ast.CallExpr
+	crcFn     *types.Func
+	crcSpanT  int64
+	crcAt     int64
+	crcOrder  string
+	crcCmp    ast.Expr
+	wordReads map[types.Object][2]interface{} // local var -> (offset, order)
 }
 
 func c19ParseDecode(c *kit.Ctx, m *c19Model, f *kit.Func) *frameDec {
